@@ -42,7 +42,8 @@ ASSUMPTIONS = ['handlers do not raise (exceptions thrown by third-party handlers
                'sampling, not proof: schedules up to the stated length and re-entrancy depth 3']
 PROBES = ['nested_delay_flush', 'death_while_queued', 'unsub_during_dispatch', 'exception_exit_nonempty_queue',
           'handler_delay_during_flush', 'ignored_dropped', 'filter_rejected', 'most_specific_shadowing',
-          'owner_death_removes_sub', 'reentrant_broadcast', 'listener_death']
+          'owner_death_removes_sub', 'reentrant_broadcast', 'listener_death', 'stateful_filter_rejected',
+          'filter_state_changed_during_dispatch']
 
 CLASSES = ['M0', 'M1', 'M2', 'N']
 PARENTS = {'M0': ['M0'], 'M1': ['M1', 'M0'], 'M2': ['M2', 'M1', 'M0'], 'N': ['N', 'M0']}
@@ -76,19 +77,23 @@ def _classes():
 
 def gen_spec(rng, nl, na, depth=0):
     hk = rng.wpick([('method', 5), ('func', 2), ('notify', 2), ('aux', 1 if na else 0)])
-    fk = rng.wpick([('all', 5), ('tag', 2), ('ftag', 1), ('auxtag', 1 if na else 0)])
+    fk = rng.wpick([('all', 5), ('tag', 2), ('ftag', 1), ('auxtag', 1 if na else 0), ('flag', 1.5)])
     spec = {'h': hk, 'f': fk, 'p': rng.pick([0, 10, 10, 20]), 'acc': rng.pick([0, 1]),
             'script': gen_script(rng, nl, na, depth)}
     if hk == 'aux':
         spec['ha'] = rng.randrange(na)
     if fk == 'auxtag':
         spec['fa'] = rng.randrange(na)
+    if fk == 'flag':
+        spec['fl'] = rng.randrange(2)
     return spec
 
 
 def gen_action(rng, nl, na, depth):
     k = rng.wpick([('b', 6), ('d', 3 if depth < 2 else 0), ('i', 1 if depth < 2 else 0), ('s', 2), ('u', 2),
-                   ('ua', 1), ('k', 1), ('ka', 1 if na else 0), ('c', 1)])
+                   ('ua', 1), ('k', 1), ('ka', 1 if na else 0), ('c', 1), ('t', 2)])
+    if k == 't':
+        return ['t', rng.randrange(2)]
     if k == 'b':
         return ['b', rng.pick(CLASSES), rng.randrange(2)]
     if k == 'd':
@@ -121,7 +126,7 @@ def generate(rng, cfg, guards):
     # swarm: per-run weights
     w = {'b': 6, 'enter_delay': rng.pick([0, 1, 3]), 'enter_ignore': rng.pick([0, 0, 1, 2]),
          'exit': rng.pick([1, 2, 3]), 's': rng.pick([2, 4]), 'u': rng.pick([0, 1, 2]), 'ua': rng.pick([0, 1]),
-         'k': rng.pick([0, 0, 1]), 'ka': rng.pick([0, 0, 1]) if na else 0, 'c': rng.pick([0, 1])}
+         'k': rng.pick([0, 0, 1]), 'ka': rng.pick([0, 0, 1]) if na else 0, 'c': rng.pick([0, 1]), 't': rng.pick([0, 1, 1])}
     ops = []
     nsub0 = rng.randrange(1, 2 * nl + 1)
     for _ in range(nsub0):
@@ -147,6 +152,8 @@ def generate(rng, cfg, guards):
             ops.append(['k', rng.randrange(nl)])
         elif k == 'ka':
             ops.append(['ka', rng.randrange(na)])
+        elif k == 't':
+            ops.append(['t', rng.randrange(2)])
         else:
             ops.append(['c'])
     return {'knobs': {'nl': nl, 'na': na, 'cyc': [rng.chance(0.5) for _ in range(nl)],
@@ -208,6 +215,7 @@ class World(object):
         self.hdepth = 0
         self.cms = []           # top-level open context managers
         self.agc = False
+        self.flags = [True, True]   # mutable state read by 'flag' filters
         self.sender = _Sender()
         self.scripts = {}       # (uid, cls) -> script
 
@@ -312,6 +320,9 @@ class World(object):
         elif k == 'c':
             gc.collect()
             self.ev('collect')
+        elif k == 't':
+            self.flags[a[1]] = not self.flags[a[1]]
+            self.ev('flag', a[1], self.flags[a[1]])
         elif k == 'enter_delay':
             cm = hub.delay_callbacks()
             cm.__enter__()
@@ -370,9 +381,11 @@ class World(object):
             a = self.auxobj(spec['fa'])
             fowner = a.uid
             kwargs['filter'] = a.accept1 if acc else a.accept0
+        elif fk == 'flag':
+            kwargs['filter'] = l.flag1 if spec['fl'] else l.flag0
         self.scripts[(l.uid, cls)] = spec.get('script', [])
         self.hub.subscribe(l, M, **kwargs)
-        self.ev('sub', l.uid, cls, {'p': spec['p'], 'acc': None if fk == 'all' else acc,
+        self.ev('sub', l.uid, cls, {'p': spec['p'], 'acc': None if fk in ('all', 'flag') else acc, 'flag': spec.get('fl') if fk == 'flag' else None,
                                          'ho': howner, 'fo': fowner, 'known': hk != 'notify'})
 
 
@@ -445,6 +458,12 @@ def make_listener(world, uid):
             def accept1(self, msg):
                 return msg.tag == 1
 
+            def flag0(self, msg):
+                return self.world.flags[0]
+
+            def flag1(self, msg):
+                return self.world.flags[1]
+
         _LISTENER_CLS.append(SimListener)
     return _LISTENER_CLS[0](world, uid)
 
@@ -496,6 +515,7 @@ def check_trace(trace, res):
     msgs = {}       # mid -> dict
     stack = []      # frames: ['dispatch', window] | ['handler', lid] | ['flush', ctx]
     ndeliv = 0
+    flags = [True, True]
 
     def recipients(cls, tag):
         out = {}
@@ -509,6 +529,9 @@ def check_trace(trace, res):
                 res.probe('most_specific_shadowing')
             if spec['acc'] is not None and spec['acc'] != tag:
                 res.probe('filter_rejected')
+                continue
+            if spec.get('flag') is not None and not flags[spec['flag']]:
+                res.probe('stateful_filter_rejected')
                 continue
             out[lid] = (spec['p'], best, spec['known'])
         return out
@@ -718,6 +741,10 @@ def check_trace(trace, res):
             if fr[0] != 'handler' or fr[1] != ev[1]:
                 raise Violation('C07/broadcast-outlives-handler',
                                 'handler of listener %d returned while a nested dispatch was still open' % ev[1])
+        elif k == 'flag':
+            flags[ev[1]] = ev[2]
+            if any(fr[0] == 'dispatch' or (fr[0] == 'flush' and fr[1]['win'] is not None) for fr in stack):
+                res.probe('filter_state_changed_during_dispatch')
         elif k in ('kill', 'collect'):
             pass
         else:
